@@ -19,15 +19,25 @@ META = {
 SPEC = "specs/BlsRecovery"
 
 
+def _deliveries(b):
+    return [s for s in b["steps"] if s["a"] in ("Deliver", "Late")]
+
+
+def _repeats(b):
+    """some sender has several messages in the behaviour"""
+    senders = [s["m"]["sender"] for s in _deliveries(b) if s["m"]["kind"] == "share"]
+    return len(senders) != len(set(senders))
+
+
 def _select(beh, n, rnd):
-    """all behaviours with at most one delivery + a seeded sample of the rest"""
-    def deliveries(b):
-        return sum(1 for s in b["steps"] if s["a"] == "Deliver")
-    short = [b for b in beh if deliveries(b) <= 1]
-    rest = [b for b in beh if deliveries(b) > 1]
+    """all behaviours with at most one delivery, all in which one sender sends several messages and the
+    threshold is reached, plus a seeded sample of the rest"""
+    must = [b for b in beh if len(_deliveries(b)) <= 1 or (_repeats(b) and b["phase"] == "submitted")]
+    ids = set(id(b) for b in must)
+    rest = [b for b in beh if id(b) not in ids]
     if n is None or n >= len(rest):
-        return short + rest
-    return short + rnd.sample(rest, n)
+        return must + rest
+    return must + rnd.sample(rest, n)
 
 
 def run(ctx):
@@ -41,9 +51,10 @@ def run(ctx):
     hz = ctx.tlc(SPEC, "MC_BlsRecovery", cfg="MC_Hazard", label="MC_Hazard", expect=("violation",))
     ctx.extra["positional_reading_counterexample"] = hz.violated
     # 3. the collection loop model
-    for cfg in ctx.pick((), ("MC_Collect", "MC_CollectUnknown")):
+    for cfg in ctx.pick((), ("MC_Collect", "MC_CollectUnknown", "MC_Repeat")):
         r = ctx.tlc(SPEC, "MC_ShareCollection", cfg=cfg, coverage=True, label=cfg)
-        ctx.require_coverage(r, ["DoIgnore", "DoReject", "DoAccept", "OtherSubmitted", "Timeout", "Complete", "Submit"], cfg)
+        need = ["Reject", "Accept", "LateMsg", "OtherSubmitted", "Timeout", "Complete", "Submit"]
+        ctx.require_coverage(r, need + ([] if cfg == "MC_Repeat" else ["Ignore"]), cfg)
     # 4. every enumerated input slice on the real RecoverSignature / RecoverPublicKey
     cases = []
     for cfg in ctx.pick(["Gen_K2q", "Gen_K3q"], ["Gen_K1", "Gen_K2", "Gen_K3"]):
@@ -67,18 +78,44 @@ def run(ctx):
         ctx.broken("recover harness reports missing: %s" % sorted(go.reports))
     # 5. every behaviour of the collection loop on the real SignAndSubmit + direct share validation
     beh = []
-    for cfg in ctx.pick(("Gen_Collectq", "Gen_CollectUnknownq"), ("Gen_Collect", "Gen_CollectUnknown")):
+    gens = ctx.pick((("Gen_Collectq", 300), ("Gen_CollectUnknownq", 300), ("Gen_Repeatq", 250)),
+                    (("Gen_Collect", 3000), ("Gen_CollectUnknown", 3000), ("Gen_Repeat", 3000)))
+    for cfg, nsample in gens:
         g = ctx.tlc(SPEC, "Gen_ShareCollection", cfg=cfg, workers=1, label=cfg, dump_trace=False, coverage=True)
-        ctx.require_coverage(g, ["GIgnoreM", "GRejectM", "GAcceptM", "GOther", "GTimeout", "GComplete", "GSubmit"], cfg)
+        need = ["GRejectM", "GAcceptM", "GOther", "GTimeout", "GComplete", "GSubmit"]
+        if "Repeat" not in cfg:
+            need.append("GIgnoreM")
+        if not cfg.endswith("Collectq") and not cfg.endswith("Unknownq"):
+            need.append("GLateM")
+        ctx.require_coverage(g, need, cfg)
         got = ctx.read_emitted(g, "collection.ndjson")
         if len(got) < 400:
             ctx.broken("behaviour generation %s produced only %d behaviours" % (cfg, len(got)))
-        beh += _select(got, ctx.pick(300, 4000), rnd)
-    ctx.note("collection behaviours replayed: %d" % len(beh))
-    go2 = ctx.gotest("pkg/beacon/entry", "^TestVerif_C03_(Collect|Shares)$", ["c03_test.go"], inputs={"collection.ndjson": beh},
-                     env={"VERIF_SHARE_ROUNDS": ctx.pick(3, 12)}, label="collect", timeout=ctx.pick(900, 3000))
+        beh += _select(got, nsample, rnd)
+    nrep = sum(1 for b in beh if _repeats(b))
+    nrepsub = sum(1 for b in beh if _repeats(b) and b["phase"] == "submitted")
+    ctx.note("collection behaviours replayed: %d (%d with several messages of one sender, %d of those reach the threshold)" % (
+        len(beh), nrep, nrepsub))
+    if nrepsub < 20:
+        ctx.broken("too few behaviours with repeated messages of one sender that reach the threshold: %d" % nrepsub)
+    # the direct drive of the unexported extractAndValidateShare lives in its own file: when the helper's
+    # signature changes that file no longer builds; the SignAndSubmit-level replay must still run
+    collect_env = {"VERIF_SHARE_ROUNDS": ctx.pick(3, 12)}
+    direct_skipped = False
+    try:
+        go2 = ctx.gotest("pkg/beacon/entry", "^TestVerif_C03_(Collect|Shares)$", ["c03_test.go", "c03_direct_test.go"],
+                         inputs={"collection.ndjson": beh}, env=collect_env, label="collect", timeout=ctx.pick(900, 3000))
+    except Exception as ex:
+        if type(ex).__name__ != "Broken" or "[build failed]" not in str(ex):
+            raise
+        direct_skipped = True
+        ctx.note("direct-call harness skipped: signature changed (c03_direct_test.go does not build against this tree)")
+        go2 = ctx.gotest("pkg/beacon/entry", "^TestVerif_C03_Collect$", ["c03_test.go"],
+                         inputs={"collection.ndjson": beh}, env=collect_env, label="collect-nodirect",
+                         timeout=ctx.pick(900, 3000))
     ctx.absorb(go2)
-    if set(go2.reports) != {"collect", "shares"}:
+    ctx.extra["direct_call_harness_skipped"] = direct_skipped
+    if set(go2.reports) != ({"collect"} if direct_skipped else {"collect", "shares"}):
         ctx.broken("collect harness reports missing: %s" % sorted(go2.reports))
     ph = (ctx.extra.get("harness", {}).get("collect", {}).get("counters") or {})
     for need in ("phase_submitted", "phase_timedout", "phase_left"):
@@ -90,7 +127,9 @@ def run(ctx):
              "re-mapping to 16-bit member indices), nil, nil-value and negative-index entries, thresholds 1..3 (quick: seeded "
              "sample of 1500, thorough: all), each with a fresh random BN254 polynomial and message, plus random inputs up to group "
              "64 / threshold 33; non-trivial = inputs with a skipped entry before a used one or shares out of index order. "
-             "collection: behaviours of up to 3 deliveries from a 23-message alphabet (correct, wrong signer, wrong message, "
+             "collection: behaviours of up to 3 deliveries from a 23-message alphabet plus up to 3/4 deliveries from a 10-message "
+             "alphabet of two senders (every history of repeated messages of one sender: valid then invalid, invalid then "
+             "valid, valid then another valid-looking share; messages after the threshold) (correct, wrong signer, wrong message, "
              "infinity, malformed, other session, own echo, outsider, other payload) ending in timeout / entry submitted by "
              "another member / threshold reached; all with <= 1 delivery plus a seeded sample.",
         assumptions=["field Z_11 stands for the BN254 scalar field in the model (recovery is the same linear formula)",
